@@ -130,6 +130,7 @@ type c15World struct {
 	failed bool // a violation was recorded: stop the scenario
 	incon  bool // a watchdog fired: stop the test
 	wedged bool // the cluster is deadlocked: it cannot be disposed
+	tag    string // once set (gated schedule families): the phase reported by every later check
 
 	trig     *internal.C15Trigger
 	fired    int64
@@ -781,6 +782,9 @@ func (w *c15World) checkListener(s *c15Sub, phase string) bool {
 func (w *c15World) check(phase string) {
 	if w.stopped() || w.pending() > 0 {
 		return
+	}
+	if w.tag != "" {
+		phase = w.tag
 	}
 	for pass := 0; pass < 2; pass++ {
 		for _, s := range w.subs {
